@@ -206,17 +206,6 @@ func c10Drivers() []concParams {
 		{Name: "3-writers-2ops", Cfg: "roomy/bytewise", Clients: [][]string{{"put:a", "put:b"}, {"put:b", "w:+a,+b"}, {"del:a"}}, QB: 2, TB: 3, Expect: "noerr"},
 		{Name: "overflow-handoff", Cfg: "wide/bytewise", Clients: [][]string{{"put:a"}, {"putL:b"}, {"put:a"}}, QB: 2, TB: 3, Expect: "noerr", SQ: 1, ST: 1},
 		{Name: "no-merge", Cfg: "roomy/bytewise", NoMerge: true, Clients: [][]string{{"put:a"}, {"put:b"}, {"put:a"}}, QB: 3, TB: 4, Expect: "noerr", SQ: 1, ST: 1},
-		{Name: "writers-vs-close", Cfg: "roomy/bytewise", Clients: [][]string{{"put:a"}, {"put:b"}, {"close"}}, QB: 3, TB: 4, SQ: 1, ST: 1},
-		{Name: "overflow-handoff-vs-close", Cfg: "wide/bytewise", Clients: [][]string{{"put:a"}, {"putL:b"}, {"put:a"}, {"close"}}, QB: 2, TB: 3},
-		{Name: "overflow-handoff-vs-readonly", Cfg: "wide/bytewise", Clients: [][]string{{"put:a"}, {"putL:b"}, {"put:a"}, {"ro"}}, QB: 2, TB: 3},
-		{Name: "merged-group-fills-buffer", Cfg: "wide/bytewise", Pre: []string{"putM:a", "putE:b"}, Clients: [][]string{{"put:a"}, {"put:b"}, {"put:a"}}, QB: 2, TB: 3, Expect: "noerr", SQ: 1, ST: 1},
-		{Name: "merged-group-fills-buffer-vs-close", Cfg: "wide/bytewise", Pre: []string{"putM:a", "putE:b"}, Clients: [][]string{{"put:a"}, {"put:b"}, {"close"}}, QB: 2, TB: 3},
-		{Name: "writers-vs-tr", Cfg: "roomy/bytewise", Clients: [][]string{{"put:a"}, {"put:b"}, {"tr:+a,+b"}}, QB: 2, TB: 2, Expect: "noerr", SQ: 1, ST: 1},
-		{Name: "writers-vs-compact", Cfg: "roomy/bytewise", Pre: []string{"put:a"}, Clients: [][]string{{"put:a"}, {"put:b"}, {"cr"}}, QB: 2, TB: 3, Expect: "noerr"},
-		// CompactRange holds the write lock across its buffer rotation: a writer must not get in between
-		{Name: "compactrange-vs-writer", Cfg: "roomy/bytewise", Pre: []string{"put:a"}, Clients: [][]string{{"cr"}, {"put:b"}}, QB: 2, TB: 3, Expect: "noerr", SQ: 1, ST: 1},
-		{Name: "compactrange-vs-writer-flushy", Cfg: "flushy/bytewise", Pre: []string{"put:a"}, Clients: [][]string{{"cr"}, {"put:b"}}, QB: 2, TB: 3, Expect: "noerr"},
-		{Name: "writers-vs-readonly", Cfg: "roomy/bytewise", Clients: [][]string{{"put:a"}, {"put:b"}, {"ro"}}, QB: 3, TB: 4},
 		// a storage fault in the middle of the protocol: the group's journal write or sync fails,
 		// or the buffer rotation after a group that filled the buffer fails
 		{Name: "3-writers+journal-write-fault#1", Cfg: "roomy/bytewise", Clients: [][]string{{"put:a"}, {"put:b"}, {"put:a"}}, Faults: []faultSpec{{Kind: int(vstor.KWrite), Type: int(storage.TypeJournal), Nth: 1, Count: 1, Mode: int(vstor.ModeFail), Name: "write/journal#1"}}, QB: 2, TB: 3},
@@ -224,18 +213,29 @@ func c10Drivers() []concParams {
 		{Name: "3-sync-writers+journal-sync-fault#1", Cfg: "roomy/bytewise", Clients: [][]string{{"Sput:a"}, {"Sput:b"}, {"put:a"}}, Faults: []faultSpec{{Kind: int(vstor.KSync), Type: int(storage.TypeJournal), Nth: 1, Count: 1, Mode: int(vstor.ModeFail), Name: "sync/journal#1"}}, QB: 2, TB: 3},
 		{Name: "3-sync-writers+journal-sync-fault#1+later-writes", Cfg: "roomy/bytewise", Clients: [][]string{{"Sw:+a,+b", "Sput:c"}, {"Sw:+b,-a", "Sput:a"}, {"put:a"}}, Faults: []faultSpec{{Kind: int(vstor.KSync), Type: int(storage.TypeJournal), Nth: 1, Count: 1, Mode: int(vstor.ModeFail), Name: "sync/journal#1"}}, QB: 2, TB: 3},
 		{Name: "merged-group-fills-buffer+journal-create-fault", Cfg: "wide/bytewise", Pre: []string{"putM:a", "putE:b"}, Clients: [][]string{{"put:a"}, {"put:b"}, {"put:a"}}, Faults: []faultSpec{{Kind: int(vstor.KCreate), Type: int(storage.TypeJournal), Nth: 1, Count: 1, Mode: int(vstor.ModeFail), Name: "create/journal#1"}}, QB: 2, TB: 3},
-		// a leader with a merged follower hands the lock to an oversized writer, which in turn
-		// merges a follower of its own: two groups' acknowledgements are in flight
-		{Name: "overflow-handoff-4-writers", Cfg: "wide/bytewise", Clients: [][]string{{"put:a"}, {"put:b"}, {"putL:b"}, {"w:+a,+b", "get:a"}}, QB: 2, TB: 3, Expect: "noerr"},
 		// writers queue up behind a transaction that holds the write lock until all of them are
 		// parked: when it commits, one becomes leader and finds the others waiting to be merged
 		{Name: "queue-behind-transaction", Cfg: "roomy/bytewise", Clients: [][]string{{"trq:+z"}, {"put:a"}, {"put:b"}, {"w:+a,+b", "get:a"}}, QB: 2, TB: 3, WQ: 4, WT: 5, Expect: "noerr", SQ: 1, ST: 1},
 		// only batches in the queue: the leader is a Write whose own (caller-owned) batch heads the group
 		{Name: "queue-behind-transaction-batches", Cfg: "roomy/bytewise", Clients: [][]string{{"trq:+z"}, {"w:+a,+b"}, {"w:+b,-a"}, {"w:+a", "get:a"}}, QB: 2, TB: 3, Expect: "noerr"},
-		{Name: "queue-behind-transaction-overflow", Cfg: "wide/bytewise", Clients: [][]string{{"trq:+z"}, {"put:a"}, {"put:b"}, {"putL:b"}, {"w:+a,+b", "get:a"}}, QB: 2, TB: 2, WT: 4, Expect: "noerr"},
 		// the same queue with a record above the fixed 128 KiB merge limit in a roomy buffer: the
 		// oversized writer takes the lock over without having to rotate the buffer first
 		{Name: "queue-behind-transaction-huge", Cfg: "roomy/bytewise", Clients: [][]string{{"trq:+z"}, {"put:a"}, {"put:b"}, {"putH:b"}, {"w:+a,+b", "get:a"}}, QB: 2, TB: 2, WQ: 4, WT: 5, Expect: "noerr"},
+		// CompactRange holds the write lock across its buffer rotation: a writer must not get in between
+		{Name: "compactrange-vs-writer", Cfg: "roomy/bytewise", Pre: []string{"put:a"}, Clients: [][]string{{"cr"}, {"put:b"}}, QB: 2, TB: 3, Expect: "noerr", SQ: 1, ST: 1},
+		{Name: "compactrange-vs-writer-flushy", Cfg: "flushy/bytewise", Pre: []string{"put:a"}, Clients: [][]string{{"cr"}, {"put:b"}}, QB: 2, TB: 3, Expect: "noerr"},
+		{Name: "writers-vs-close", Cfg: "roomy/bytewise", Clients: [][]string{{"put:a"}, {"put:b"}, {"close"}}, QB: 3, TB: 4, SQ: 1, ST: 1},
+		{Name: "overflow-handoff-vs-close", Cfg: "wide/bytewise", Clients: [][]string{{"put:a"}, {"putL:b"}, {"put:a"}, {"close"}}, QB: 2, TB: 3},
+		{Name: "merged-group-fills-buffer", Cfg: "wide/bytewise", Pre: []string{"putM:a", "putE:b"}, Clients: [][]string{{"put:a"}, {"put:b"}, {"put:a"}}, QB: 2, TB: 3, Expect: "noerr", SQ: 1, ST: 1},
+		{Name: "merged-group-fills-buffer-vs-close", Cfg: "wide/bytewise", Pre: []string{"putM:a", "putE:b"}, Clients: [][]string{{"put:a"}, {"put:b"}, {"close"}}, QB: 2, TB: 3},
+		{Name: "overflow-handoff-vs-readonly", Cfg: "wide/bytewise", Clients: [][]string{{"put:a"}, {"putL:b"}, {"put:a"}, {"ro"}}, QB: 2, TB: 3},
+		{Name: "writers-vs-tr", Cfg: "roomy/bytewise", Clients: [][]string{{"put:a"}, {"put:b"}, {"tr:+a,+b"}}, QB: 2, TB: 2, Expect: "noerr", SQ: 1, ST: 1},
+		{Name: "writers-vs-compact", Cfg: "roomy/bytewise", Pre: []string{"put:a"}, Clients: [][]string{{"put:a"}, {"put:b"}, {"cr"}}, QB: 2, TB: 3, Expect: "noerr"},
+		{Name: "writers-vs-readonly", Cfg: "roomy/bytewise", Clients: [][]string{{"put:a"}, {"put:b"}, {"ro"}}, QB: 3, TB: 4},
+		// a leader with a merged follower hands the lock to an oversized writer, which in turn
+		// merges a follower of its own: two groups' acknowledgements are in flight
+		{Name: "overflow-handoff-4-writers", Cfg: "wide/bytewise", Clients: [][]string{{"put:a"}, {"put:b"}, {"putL:b"}, {"w:+a,+b", "get:a"}}, QB: 2, TB: 3, Expect: "noerr"},
+		{Name: "queue-behind-transaction-overflow", Cfg: "wide/bytewise", Clients: [][]string{{"trq:+z"}, {"put:a"}, {"put:b"}, {"putL:b"}, {"w:+a,+b", "get:a"}}, QB: 2, TB: 2, WT: 4, Expect: "noerr"},
 		{Name: "4-writers", Cfg: "roomy/bytewise", Clients: [][]string{{"put:a"}, {"put:b"}, {"put:a"}, {"put:b"}}, QB: 2, TB: 3, Expect: "noerr"},
 	}
 }
